@@ -43,4 +43,12 @@ PROPS = {
         need_events=["api_built", "ref_decode_ok"],
         assumptions=TRUST,
     ),
+    "C20": dict(
+        level="exploration",
+        rule="AVP trees (dense trees over 6 codes with repeats at several depths, groups in groups, empty groups, undefined codes; and trees drawn from every dictionary context), built through the API or obtained by decoding, are queried with FindAVP / FindAVPs / FindAVPsWithPath by int, uint32 and name, for codes present, absent, undefined, with wildcard / exact / wrong vendor; results are compared by pointer identity and order with a reference pre-order walk. distinct_nontrivial counts distinct (origin, query kind, query form, number of hits capped at 3, resolvable) and (path length, hits, resolvable) classes.",
+        runs=dict(quick=[plain("TestC20", 8)], thorough=[plain("TestC20", 16, 3000)]),
+        floor=dict(quick=20000, thorough=1000000),
+        need_events=["queries", "path_queries"],
+        assumptions=TRUST + ["for a numeric code the dictionary does not define the library may answer 'not found' or the reference result, never a different AVP"],
+    ),
 }
